@@ -30,8 +30,8 @@ PROPS = {
         level_note="Sources are authenticated by the transport (property C05); the adversary is limited to its own identities plus observed honest messages as justifications; "
                    "values/instances are int64 stand-ins for hashes/duties; Compare is the production default (nil).",
         runs={
-            "quick": [dict(test="TestQBFTRandom", checks=12000, shards=4, env={"VERIF_ORACLE": "C02"})],
-            "thorough": [dict(test="TestQBFTRandom", checks=150000, shards=16, timeout=3000, env={"VERIF_ORACLE": "C02", "VERIF_MAXEV": 1200})],
+            "quick": [dict(test="TestQBFTRandom", checks=10000, shards=3, env={"VERIF_ORACLE": "C02"}), dict(test="TestQBFTStaged", checks=10000, shards=3, env={"VERIF_ORACLE": "C02"})],
+            "thorough": [dict(test="TestQBFTRandom", checks=150000, shards=10, timeout=3000, env={"VERIF_ORACLE": "C02", "VERIF_MAXEV": 1200}), dict(test="TestQBFTStaged", checks=150000, shards=6, timeout=3000, env={"VERIF_ORACLE": "C02", "VERIF_MAXEV": 600})],
         },
     ),
     "C03": dict(
@@ -41,8 +41,8 @@ PROPS = {
                    "(an input value when nobody is Byzantine), backed by a quorum of distinct matching COMMITs that honest sources really sent.",
         level_note="As C02. 'Backed by' is read as: the qcommit argument contains a quorum of distinct-source COMMITs for the decided round and value (extra entries an adversary padded in are tolerated).",
         runs={
-            "quick": [dict(test="TestQBFTRandom", checks=12000, shards=4, env={"VERIF_ORACLE": "C03"})],
-            "thorough": [dict(test="TestQBFTRandom", checks=150000, shards=16, timeout=3000, env={"VERIF_ORACLE": "C03", "VERIF_MAXEV": 1200})],
+            "quick": [dict(test="TestQBFTRandom", checks=10000, shards=3, env={"VERIF_ORACLE": "C03"}), dict(test="TestQBFTStaged", checks=10000, shards=3, env={"VERIF_ORACLE": "C03"})],
+            "thorough": [dict(test="TestQBFTRandom", checks=150000, shards=10, timeout=3000, env={"VERIF_ORACLE": "C03", "VERIF_MAXEV": 1200}), dict(test="TestQBFTStaged", checks=150000, shards=6, timeout=3000, env={"VERIF_ORACLE": "C03", "VERIF_MAXEV": 600})],
         },
     ),
     "C04": dict(
